@@ -10,6 +10,8 @@ from . import common, forward
 
 from .c15 import _globals_inventory
 
+from .c13 import _forwarding
+
 META = {
     'explanation': (
         "COMMIT rule: in every method with a `commit` parameter each store to "
@@ -94,6 +96,7 @@ def check(ctx):
     ctx.attempt(_parsers_readonly)
     ctx.attempt(_commit_assigns)
     ctx.attempt(_fresh)
+    ctx.attempt(_forwarding)
     ctx.attempt(_globals_inventory)
     ctx.attempt(forward.check_all, module_suffixes=('plssdesc.plssdesc', 'tract.tract', 'tract.tract_parse'))
 
